@@ -295,7 +295,8 @@ def sign_table(ctx):
         check_table(ctx, repo, label, kwargs, f"algebra.Algebra._prepare_signs#{label}", fn)
 
 
-@rule("C01.lazy-eager", props=["C01", "C09", "C02", "C03"], min_instances=3, mutants=[
+@rule("C01.lazy-eager", props=["C01", "C09", "C02", "C03", "C05"], min_instances=3, mutants=[
+    ("the square of a blade takes the reversal sign of grades 2 and 3 only", ("algebra", "            eI, eJ = canon_pair\n", "            eI, eJ = canon_pair\n            if I == J:\n                sign = -1 if len(eI) - 1 in (2, 3) else 1\n                for key in eI[1:]:\n                    sign *= self.signature[int(key, base=16) - self.start_index]\n                return sign\n")),
     ("lazy table stores under a swapped key", ("algebra", "        res = self[key] = self.factory(key)", "        res = self[key[::-1]] = self.factory(key)")),
     ("lazy fill also caches the mirrored entry with a grade-only sign", ("algebra", "            return sign\n\n        if self.d > 6:\n            return DefaultKeyDict(_compute_sign)", "            if not canon_pair_given:\n                signs[J, I] = sign * (-1) ** ((len(eI) - 1) * (len(eJ) - 1))\n            return sign\n\n        if self.d > 6:\n            signs = DefaultKeyDict(_compute_sign)\n            return signs")),
     ("lazy path uses a different spelling source", ("algebra", "                canon_pair = self.bin2canon[I], self.bin2canon[J]", "                canon_pair = self.bin2canon[J], self.bin2canon[I]")),
@@ -306,6 +307,9 @@ def lazy_eager(ctx):
     fn = ctx.func("algebra.Algebra._prepare_signs")
     sample = [0, 1, 2, 64, 3, 65, 66, 7, 96, 21, 42, 85, 127, 126, 15, 112]
     pairs = [(a, b) for a in sample for b in sample]
+    # ... and the square of EVERY blade (the reversal sign of each grade 0..7 times the metric of its generators): the sign of
+    # the pseudoscalar's square decides how dual() inverts it
+    pairs += [(a, a) for a in range(128) if a not in sample]
     res = check_table(ctx, repo, "default d=7 (lazy)", dict(p=4, q=2, r=1), "algebra.Algebra._prepare_signs#lazy d=7", fn, pairs)
     if ctx.tier == "thorough":
         sample8 = [0, 1, 128, 129, 3, 192, 85, 170, 255, 254, 15, 240, 51, 204, 7, 224]
